@@ -187,4 +187,28 @@ func checkC22(r *Run) {
 	}
 	// R4
 	boundObligations(r, "C22-R4", dd, "daemon/gnet.convertToMessage")
+	// the bytes just appended to the connection buffer are decoded (and complete frames delivered) before the
+	// loop reads again: delivery does not depend on how the stream was split into reads
+	r.RequireBetween("C22-R1", "daemon/gnet.ConnectionPool.readLoop", "bytes.Buffer.Write", "daemon/gnet.decodeData", "daemon/gnet.readData", "every successful append to the connection buffer is followed by decodeData before the next read")
+	if fn := r.fn("C22-R1", "daemon/gnet.ConnectionPool.readLoop"); fn != nil {
+		ff := r.P.Facts(fn)
+		// every decoded frame is offered to the message channel: the delivery loop ranges over all of decodeData's result
+		n := 0
+		for _, b := range fn.Blocks {
+			for _, in := range b.Instrs {
+				if sel, ok := in.(*ssa.Select); ok {
+					for _, st := range sel.States {
+						if st.Dir == types.SendOnly {
+							n++
+							lp := ff.innermost[b]
+							r.Check("C22-R1", "daemon/gnet.ConnectionPool.readLoop: every frame returned by decodeData is offered to the message channel, in order", r.P.Pos(sel.Pos()),
+								lp != nil && glob("* < len(daemon/gnet.decodeData(*)#0)", ff.loopSpace(lp)) && len(ff.loopSpace(lp)) > 0 && glob("daemon/gnet.decodeData(*)#0["+ff.loopSpace(lp)[:1]+"]", ff.Term(st.Send)) && ff.everyIteration(b, lp), ff.Term(st.Send))
+						}
+					}
+				}
+			}
+		}
+		r.Check("C22-R1", "daemon/gnet.ConnectionPool.readLoop: delivery sites", "", n == 1, "")
+	}
+
 }
